@@ -249,4 +249,107 @@ D2Static ==
     \cup {SeqT("tuple", <<One(s1), One(s2)>>) : s1 \in Mid, s2 \in Mid}
     \cup {Union(<<a, b>>) : a \in Mid, b \in Mid}
     \cup {Generic("dict", <<Typed("str"), s>>) : s \in Mid}
+
+(***************************************************************************)
+(* Wide term space for the totality checks (C12).  Add-only: nothing below *)
+(* is part of D1 / D2 / TDTerms, Member is not defined on these terms (they *)
+(* are inputs of "returns instead of raising", not of a soundness claim).  *)
+(*   [k |-> "known", o |-> [c |-> "odd", v |-> name]]   KnownValue of an   *)
+(*        odd object (function, module, class, unhashable object, objects   *)
+(*        whose __eq__ / __hash__ / __bool__ raise, ...; harness/universe   *)
+(*        ODD gives the real objects)                                       *)
+(*   [k |-> "tvar", n, bound |-> << >> | <<T>>, cons |-> <<T..>>]           *)
+(*        TypeVarValue with bound / constraints; n = "PSPEC" is a ParamSpec,*)
+(*        n = "TVT" a TypeVarTuple                                          *)
+(*   [k |-> "callable", ps |-> <<[n, kind, t |-> << >> | <<T>>, d]..>>,    *)
+(*        ret |-> T]    CallableValue(Signature); kind in pos / pk / kw /   *)
+(*        var / varkw / pspec / ellipsis; d = has a default                 *)
+(*   [k |-> "annotated", t |-> T, md |-> <<[x |-> ext kind, t |-> T]..>>]   *)
+(*        AnnotatedValue; x = "value" is plain metadata, the other kinds    *)
+(*        are pyanalyze Extension objects                                   *)
+(*   [k |-> "unpacked", t |-> T]  UnpackedValue; [k |-> "psargs"] /         *)
+(*   [k |-> "pskwargs"]  P.args / P.kwargs; [k |-> "special", n |-> name]   *)
+(*        remaining Value classes (void, uninitialized, synthetic module /  *)
+(*        stub-only types, unbound method, variable name, async task,       *)
+(*        KnownValueWithTypeVars)                                           *)
+(***************************************************************************)
+OddObj(n) == [c |-> "odd", v |-> n, items |-> << >>]
+\* callables: bound methods of a class whose methods have odd parameter lists (no parameters, keyword-only first, **kwargs
+\* only, *args only, annotated self), class / static methods, builtin bound methods, partial objects, an overloaded
+\* function, callable instances and classes, descriptors
+OddCallables == {"bm_plain", "bm_noparams", "bm_kwonly", "bm_kwargs", "bm_varargs", "bm_selfann", "bm_defaults", "bm_classmethod",
+                 "fn_static", "fn_unbound", "fn_unbound_noparams", "bm_builtin", "bm_strjoin", "partial", "partial_bm", "overloaded",
+                 "callable_obj", "callable_cls", "builtin_cls", "method_descriptor", "wrapper_descriptor", "bm_dunder"}
+OddNames == {"function", "lambda", "builtin", "method", "module", "class", "genericalias", "unhashable", "eqraises",
+             "hashraises", "hashraises_rt", "boolraises", "eqodd", "nan", "ellipsis", "notimplemented", "bytearray",
+             "slice", "frozenset", "range"} \cup OddCallables
+OddKnown == {Known(OddObj(n)) : n \in OddNames}
+TVar(n, bound, cons) == [k |-> "tvar", n |-> n, bound |-> bound, cons |-> cons]
+SigParam(n, kind, t, d) == [n |-> n, kind |-> kind, t |-> t, d |-> d]
+CallableT(ps, ret) == [k |-> "callable", ps |-> ps, ret |-> ret]
+AnnotatedT(t, md) == [k |-> "annotated", t |-> t, md |-> md]
+ExtT(x, t) == [x |-> x, t |-> t]
+UnpackedT(t) == [k |-> "unpacked", t |-> t]
+PSArgs == [k |-> "psargs"]
+PSKwargs == [k |-> "pskwargs"]
+SpecialT(n) == [k |-> "special", n |-> n]
+
+TV_T == TVar("T", << >>, << >>)
+TV_B == TVar("TB", <<Typed("int")>>, << >>)
+TV_C == TVar("TC", << >>, <<Typed("int"), Typed("str")>>)
+TV_P == TVar("PSPEC", << >>, << >>)
+TV_Ts == TVar("TVT", << >>, << >>)
+TVarTerms == {TV_T, TV_B, TV_C, TV_P, TV_Ts}
+
+CallableTerms ==
+    {CallableT(<< >>, Typed("int")),
+     CallableT(<<SigParam("x", "pos", <<Typed("int")>>, FALSE)>>, Typed("int")),
+     CallableT(<<SigParam("x", "pk", <<Typed("int")>>, TRUE), SigParam("a", "var", <<Typed("str")>>, FALSE),
+                 SigParam("k", "kw", <<Typed("int")>>, FALSE), SigParam("kw", "varkw", <<AnyT>>, FALSE)>>, Typed("str")),
+     CallableT(<<SigParam("x", "pk", << >>, FALSE), SigParam("y", "kw", << >>, TRUE)>>, AnyT),
+     CallableT(<<SigParam("e", "ellipsis", << >>, FALSE)>>, AnyT),
+     CallableT(<<SigParam("p", "pspec", <<TV_P>>, FALSE)>>, TV_T),
+     CallableT(<<SigParam("x", "pk", <<TV_T>>, FALSE)>>, TV_T),
+     CallableT(<<SigParam("x", "pos", <<TV_B>>, FALSE), SigParam("y", "pos", <<TV_C>>, TRUE)>>, Generic("list", <<TV_B>>)),
+     CallableT(<<SigParam("a", "var", <<TV_Ts>>, FALSE)>>, AnyT),
+     CallableT(<<SigParam("a", "var", <<PSArgs>>, FALSE), SigParam("k", "varkw", <<PSKwargs>>, FALSE)>>, AnyT),
+     CallableT(<<SigParam("f", "pos", <<CallableT(<<SigParam("x", "pos", <<Typed("int")>>, FALSE)>>, Typed("str"))>>, FALSE)>>,
+               CallableT(<< >>, Known(NONE)))}
+
+AnnotatedTerms ==
+    {AnnotatedT(Typed("int"), <<ExtT("value", Known(I1))>>), AnnotatedT(Typed("int"), <<ExtT("literalonly", AnyT)>>),
+     AnnotatedT(AnyT, <<ExtT("noany", AnyT)>>), AnnotatedT(Typed("A"), <<ExtT("hasattr", Typed("int"))>>),
+     AnnotatedT(Typed("bool"), <<ExtT("typeguard", Typed("int"))>>), AnnotatedT(Typed("bool"), <<ExtT("typeis", TV_T)>>),
+     AnnotatedT(Typed("bool"), <<ExtT("paramguard", Typed("int"))>>), AnnotatedT(Typed("int"), <<ExtT("alwayspresent", AnyT)>>),
+     AnnotatedT(Typed("bool"), <<ExtT("definite", AnyT)>>), AnnotatedT(Typed("bool"), <<ExtT("sysplatform", AnyT)>>),
+     AnnotatedT(Typed("int"), <<ExtT("deprecated", AnyT)>>),
+     AnnotatedT(AnnotatedT(Typed("int"), <<ExtT("literalonly", AnyT)>>), <<ExtT("value", Known(OddObj("unhashable")))>>),
+     AnnotatedT(Union(<<Typed("int"), Known(I1)>>), <<ExtT("value", Known(OddObj("eqraises"))), ExtT("value", Known(SA))>>),
+     AnnotatedT(Generic("list", <<TV_T>>), <<ExtT("value", TV_T)>>)}
+
+OddShapes ==
+    {SeqT("tuple", <<Many(Typed("int"))>>), SeqT("tuple", <<One(Typed("int")), Many(TV_Ts)>>),
+     SeqT("tuple", <<Many(Typed("int")), Many(Typed("str"))>>), SeqT("list", <<Many(AnyT), One(Known(I1))>>),
+     SeqT("tuple", <<One(UnpackedT(TV_Ts))>>), UnpackedT(SeqT("tuple", <<One(Typed("int"))>>)), UnpackedT(Typed("int")),
+     PSArgs, PSKwargs, NewType("N", "int"), NewType("N2", "str"),
+     SubclassT(TV_T), SubclassT(TV_B), SubclassT(AnyT), SubclassT(Union(<<Typed("int"), Typed("str")>>)),
+     Generic("list", <<TV_T>>), Generic("dict", <<TV_T, Known(OddObj("unhashable"))>>), Generic("list", << >>),
+     Generic("int", <<Typed("int")>>), Generic("dict", <<Typed("int")>>), Generic("tuple", <<Typed("int"), Typed("str")>>),
+     Union(<<Known(OddObj("unhashable")), Known(OddObj("eqraises"))>>), Union(<<TV_T, Known(I1)>>),
+     Union(<<Known(OddObj("hashraises")), Known(OddObj("boolraises")), Known(OddObj("eqodd")), Known(OddObj("nan"))>>),
+     TD(<<Ent("a", TRUE, TV_T)>>), DictInc(<<Pair(Known(OddObj("unhashable")), Known(OddObj("eqraises")), FALSE, TRUE)>>),
+     DictInc(<<Pair(Typed("str"), TV_T, TRUE, FALSE)>>)}
+\* UnboundMethodValue(name, receiver of type OddMethods): what the visitor infers for `obj.method`
+UnboundMethodNames == {"um_plain", "um_noparams", "um_kwonly", "um_kwargs_only", "um_varargs", "um_selfann", "um_defaults", "um_cm",
+                       "um_sm", "um___call__", "um_known_receiver", "um_missing"}
+SpecialTerms == {SpecialT(n) : n \in {"void", "uninitialized", "synthmodule", "unboundmethod", "varname", "synthtyped",
+                                         "synthgeneric", "asynctask", "knowntv", "typedcallable", "callbackproto"} \cup UnboundMethodNames}
+\* the callable-compatibility family: everything callable-like against everything callable-like
+CallFamily == CallableTerms \cup {Known(OddObj(n)) : n \in OddCallables \cup {"function", "lambda", "builtin", "method", "class"}}
+              \cup {SpecialT(n) : n \in UnboundMethodNames \cup {"unboundmethod", "typedcallable", "callbackproto", "knowntv"}}
+\* a literal union of odd objects with more than ten members (set-based fast paths of MultiValuedValue)
+BigOdd == Union(<<Known(OddObj("function")), Known(OddObj("module")), Known(OddObj("class")), Known(OddObj("unhashable")),
+                  Known(OddObj("eqraises")), Known(OddObj("hashraises")), Known(OddObj("boolraises")), Known(OddObj("eqodd")),
+                  Known(OddObj("nan")), Known(OddObj("ellipsis")), Known(OddObj("slice")), Known(I1)>>)
+OddTerms == OddKnown \cup TVarTerms \cup CallableTerms \cup AnnotatedTerms \cup OddShapes \cup SpecialTerms \cup {BigOdd}
 =============================================================================
